@@ -9,6 +9,7 @@ package main
 import (
 	"fmt"
 	"go/token"
+	"go/types"
 	"sort"
 	"unsafe"
 
@@ -25,6 +26,7 @@ type region struct {
 }
 
 type heapCopier struct {
+	i       *interpreter
 	regions []*region
 	visited map[*value]bool
 	maps    map[*gomap]*gomap
@@ -60,6 +62,9 @@ func (h *heapCopier) collect(v value) {
 	case *value:
 		if x != nil {
 			h.addRegion(x, 1)
+			if o, ok := h.i.origin[x]; ok {
+				h.collectSlice(o)
+			}
 			if !h.visited[x] {
 				h.visited[x] = true
 				h.collect(*x)
@@ -249,7 +254,7 @@ func cloneFrame(fr *frame, deep bool) *frame {
 		c.locals = fr.locals
 		return c
 	}
-	h := &heapCopier{visited: map[*value]bool{}, maps: map[*gomap]*gomap{}, chans: map[*gochan]*gochan{}, clos: map[*closure]*closure{}}
+	h := &heapCopier{i: fr.i, visited: map[*value]bool{}, maps: map[*gomap]*gomap{}, chans: map[*gochan]*gochan{}, clos: map[*closure]*closure{}}
 	h.collectSlice(fr.locals)
 	for _, v := range fr.env {
 		h.collect(v)
@@ -289,9 +294,8 @@ func init() {
 		}
 		res := call(i, fr, token.NoPos, cloneFn, args).(tuple)
 		pid, errno := res[0], res[1]
-		vm, vfork := res[2].(bool), res[3].(bool)
-		en, _, _ := intBits(errno)
-		if en != 0 {
+		vm, vfork := i.truth(res[2]), i.truth(res[3])
+		if !i.truth(svOrConst(i.equalsT(types.Typ[types.Uintptr], errno, uintptr(0)), types.Bool)) {
 			return tuple{pid, errno}
 		}
 		caller := fr.caller
@@ -325,6 +329,13 @@ func init() {
 			}
 		}
 		return nil
+	}
+	externals[symPkg+".PtrTokenOf"] = func(fr *frame, args []value) value {
+		p, ok := args[0].(iface).v.(*value)
+		if !ok || p == nil {
+			return uintptr(0)
+		}
+		return ptrTok{p: p}
 	}
 	externals[symPkg+".U32sAt"] = func(fr *frame, args []value) value {
 		n := int(asInt64(args[1]))
